@@ -189,6 +189,7 @@ impl Check for C03Check {
             Phase::random("token-soups", tier.pick(60_000, 2_000_000), 800).with_min_tape(4).with_chunk(1024),
             Phase::random("char-soups", tier.pick(60_000, 2_000_000), 300).with_min_tape(2).with_chunk(1024),
             Phase::exhaustive("scaling", (FAMILIES.len() * Self::sizes(tier).len()) as u64).with_chunk(1).with_deadline_ms(30_000),
+            Phase::exhaustive("statement-blocks", block_string_count(tier.pick(7, 8))).with_chunk(16384),
         ]
     }
     fn run(&self, tier: Tier, phase: usize, input: &Input, ctx: &mut CaseCtx) {
@@ -227,6 +228,12 @@ impl Check for C03Check {
                 classify(&out, &format!("{}#{}", fam, n), ctx);
                 ctx.class("scaling");
             }
+            (5, Input::Index(i)) => {
+                let s = block_string(*i, tier.pick(7, 8));
+                ctx.render(|| format!("{:?}", s));
+                let out = run_pipeline(&s, ctx);
+                classify(&out, &s, ctx);
+            }
             (_, Input::Text(s)) => {
                 ctx.render(|| format!("{:?}", s));
                 let out = run_pipeline(s, ctx);
@@ -245,6 +252,7 @@ impl Check for C03Check {
                 let sizes = Self::sizes(tier);
                 format!("family {} n={}", FAMILIES[(*i as usize) / sizes.len()], sizes[(*i as usize) % sizes.len()])
             }
+            (5, Input::Index(i)) => format!("{:?}", block_string(*i, tier.pick(7, 8))),
             _ => format!("{:?}", input),
         }
     }
